@@ -37,7 +37,17 @@ RULE = ('per function (49 incl. the rename/convert suffix-notation forms) x argu
         'field from any other field in every key style and order, pass_row list specs, translation dictionaries whose '
         'values are keys again; fieldmap output names over own+fresh names; cat/stack/annex over 1-3 '
         'tables with equal/permuted/overlapping/disjoint/narrower/wider headers; fill functions: all cell assignments '
-        'over {missing, x, y}.  states = distinct (tables, arguments) points; transitions = petl evaluations; a case '
+        'over {missing, x, y}.  SECOND AXIS (state surviving on a view between passes): for every lazily evaluated '
+        'function (all but columns/header/fieldnames/listof*/tupleof*) x every call form x every header kind with <=2 '
+        'fields x every argument value (3-field headers for forms with <=200 argument values), on mutable 2-row list '
+        'tables: pass 1 over the view in {complete, first items only, none} x EVERY in-place change of one input '
+        '(rename each field, swap two names, append/drop a column, shorten/lengthen each row, append/drop a row, '
+        'change a cell; field renames also through an upstream rename view by suffix notation) -> pass 2 over the '
+        'SAME view object must equal (or raise like) a freshly built view over the changed source; for the convert-all '
+        'convenience forms (convertall, replaceall, convertnumbers, formatall, interpolateall) the statement leaves open '
+        'whether "all fields" is resolved at iteration or at the call, so EITHER the fresh view OR a fresh '
+        'convert(changed source, <all field positions at construction>, same converter) is accepted - nothing else.  '
+        'states = distinct (tables, arguments[, pass-1 kind, change]) points; transitions = petl evaluations; a case '
         'is non-trivial when it has >=1 data row and the expected output differs from the (first) input table or an '
         'input row is ragged.  Excluded because the documentation gives no answer (only the frame conditions - one '
         'output row per input row, built from that row - are checked there, in the "(frame only)" forms): duplicate '
@@ -877,25 +887,218 @@ ACCESSOR = {
 }
 
 
-def call_petl(fn, tables, args, kw):
+def build(fn, tables, args, kw):
+    """Call the petl function; returns the raw view / container (nothing is iterated here)."""
     if fn == 'convert[]=':
         view = etl.convert(tables[0], **kw)
         for k, c in args[0]:
             view[k] = c
-        return _rows(view)
+        return view
     if fn == 'rename[]=':
         init = dict(args[1]) if len(args) > 1 and args[1] else None
         view = etl.rename(tables[0], init, **kw) if init is not None else etl.rename(tables[0], **kw)
         for k, v in args[0]:
             view[k] = v
-        return _rows(view)
+        return view
     if fn == 'fieldmap' and args and isinstance(args[0], (list, tuple)):
         args = (OrderedDict(args[0]),) + tuple(args[1:])
-    out = getattr(etl, fn)(*(tuple(tables) + tuple(args)), **kw)
+    return getattr(etl, fn)(*(tuple(tables) + tuple(args)), **kw)
+
+
+def normalise(fn, out, hdr):
+    """One complete pass over the view / container, in the normal form of the reference model."""
     norm = ACCESSOR.get(fn)
     if norm is not None:
-        return norm(out, tables[0][0])
+        return norm(out, hdr)
     return _rows(out)
+
+
+def call_petl(fn, tables, args, kw):
+    return normalise(fn, build(fn, tables, args, kw), tables[0][0])
+
+
+# ---------------------------------------------------------------------------------------------
+# second axis: state surviving on a view between passes.  pass 1 over the view, mutate the underlying source,
+# pass 2 over the SAME view object must equal what a freshly built view over the (mutated) source yields.
+# ---------------------------------------------------------------------------------------------
+
+EAGER = ('columns', 'header', 'fieldnames', 'listoflists', 'listoftuples', 'tupleoflists', 'tupleoftuples')
+FAMILY = {'convertall': 'convertall family', 'replaceall': 'convertall family', 'convertnumbers': 'convertall family',
+          'formatall': 'convertall family', 'interpolateall': 'convertall family'}
+PASS1 = ('full', 'first item only', 'none')
+
+
+def mutations(hdr, n):
+    """Every in-place change of a list table with header hdr and n rectangular rows, by kind."""
+    w = len(hdr)
+    out = [('none',)]
+    out += [('rename field', j) for j in range(w)]
+    if w >= 2:
+        out.append(('swap two field names',))
+    out += [('append column',), ('drop last column',)]
+    out += [('shorten row', i) for i in range(n)]
+    out += [('lengthen row', i) for i in range(n)]
+    out += [('append row',), ('drop last row',)]
+    if n and w:
+        out += [('change cell', 0, 0), ('change cell', n - 1, w - 1)]
+    return out
+
+
+def view_mutations(hdr):
+    """Changes made through an upstream rename view by suffix notation (tbl[old] = new)."""
+    w = len(hdr)
+    out = [('rename field', j) for j in range(w)]
+    if w >= 2 and len(set(hdr)) == w:
+        out.append(('swap two field names',))
+    return out
+
+
+def apply_mutation(under, view, mut):
+    """under: the list-of-lists table; view: None or the upstream rename view wrapped around it."""
+    kind = mut[0]
+    hdr = under[0]
+    w = len(hdr)
+    if kind == 'none':
+        return
+    if kind == 'rename field':
+        j = mut[1]
+        if view is not None:
+            view[j] = 'zq%d' % j
+        else:
+            hdr[j] = 'zq%d' % j
+    elif kind == 'swap two field names':
+        if view is not None:
+            view[0] = hdr[1]
+            view[1] = hdr[0]
+        else:
+            hdr[0], hdr[1] = hdr[1], hdr[0]
+    elif kind == 'append column':
+        hdr.append('zq')
+        for i, row in enumerate(under[1:]):
+            row.append(cell('r', i, w))
+    elif kind == 'drop last column':
+        if w:
+            hdr.pop()
+            for row in under[1:]:
+                if len(row) >= w:
+                    row.pop()
+    elif kind == 'shorten row':
+        row = under[1 + mut[1]]
+        if row:
+            row.pop()
+    elif kind == 'lengthen row':
+        under[1 + mut[1]].append(cell('r', mut[1], w))
+    elif kind == 'append row':
+        i = len(under) - 1
+        under.append([cell('r', i, j) for j in range(w)])
+    elif kind == 'drop last row':
+        if len(under) > 1:
+            under.pop()
+    elif kind == 'change cell':
+        under[1 + mut[1]][mut[2]] = 'CHANGED'
+    else:
+        raise ValueError(kind)
+
+
+def _cur_hdr(t):
+    for h in t:
+        return tuple(h)
+    return ()
+
+
+def _guarded(f):
+    try:
+        return ('ok', f())
+    except Exception as e:  # noqa
+        return ('raised', type(e).__name__, str(e)[:120])
+
+
+def _same_result(fn, a, b):
+    if a[0] != 'ok' or b[0] != 'ok':
+        return a[0] != 'ok' and b[0] != 'ok'
+    return a[1] == b[1] and repr(a[1]) == repr(b[1])
+
+
+def _construction_time_reading(fn, table, n0, args, kw):
+    """The documented convenience form convert(table, <all fields>, converter) with the fields that existed when
+    the view was constructed (selected by position)."""
+    idx = tuple(range(n0))
+    if fn == 'convertall':
+        return etl.convert(table, idx, *args, **kw)
+    if fn == 'replaceall':
+        return etl.convert(table, idx, {args[0]: args[1]}, **kw)
+    if fn == 'convertnumbers':
+        from petl.util.parsers import numparser
+        kw = dict(kw)
+        strict = args[0] if args else kw.pop('strict', False)
+        return etl.convert(table, idx, numparser(strict), **kw)
+    if fn == 'formatall':
+        fmt = args[0]
+        return etl.convert(table, idx, lambda v: fmt.format(v), **kw)
+    if fn == 'interpolateall':
+        fmt = args[0]
+        return etl.convert(table, idx, lambda v: fmt % v, **kw)
+    raise KeyError(fn)
+
+
+def evaluate_repass(case):
+    fn = case['fn']
+    rp = case['repass']
+    args = R.materialise(tuple(case['args']))
+    kw = R.materialise(dict(case.get('kwargs') or {}))
+    unders = [[list(r) for r in t] for t in case['tables']]
+    tabs = list(unders)
+    ti = rp['t']
+    view = None
+    if rp['src'] == 'rename view':
+        view = etl.rename(unders[ti])
+        tabs[ti] = view
+    tabs = tuple(tabs)
+    n0 = len(_cur_hdr(tabs[0]))          # number of fields when the view is constructed
+    try:
+        obj = build(fn, tabs, args, kw)
+    except Exception:  # noqa - judged by the first axis
+        return ('ok', None, None, None, '', False, 'exc-at-construction')
+    p1 = rp['pass1']
+    if p1 == 'full':
+        _guarded(lambda: normalise(fn, obj, _cur_hdr(tabs[0])))
+    elif p1 == 'first item only':
+        def first():
+            it = iter(obj)
+            next(it, None)
+            next(it, None)
+            del it
+        _guarded(first)
+    apply_mutation(unders[ti], view, tuple(rp['mut']))
+    hdr = _guarded(lambda: _cur_hdr(tabs[0]))
+    hdr = hdr[1] if hdr[0] == 'ok' else ()
+    again = _guarded(lambda: normalise(fn, obj, hdr))
+    fresh = _guarded(lambda: normalise(fn, build(fn, tabs, args, kw), hdr))
+    nontriv = rp['mut'][0] != 'none' and p1 != 'none'
+    if fn in FAMILY and not _same_result(fn, again, fresh):
+        # the statement does not say WHEN "all fields" is resolved: at iteration (= fresh view, above) or when
+        # the view is built (= convert(table, <all fields at construction>, ...)).  Both readings are accepted.
+        alt = _guarded(lambda: normalise('convert', _construction_time_reading(fn, tabs[0], n0, args, kw), hdr))
+        if _same_result(fn, again, alt):
+            return ('ok', None, None, None, '', nontriv, 'construction-time reading: ' + repr(again)[:200])
+    if fresh[0] != 'ok':
+        if again[0] == 'ok':
+            return ('viol', 'reused view yields a result where a fresh view raises', fresh, again,
+                    'after the source changed, a second pass over the same view object does not behave like a '
+                    'freshly built view', nontriv, 'noexc')
+        return ('ok', None, None, None, '', nontriv, 'exc')
+    if again[0] != 'ok':
+        return ('viol', 'reused view raises where a fresh view works', fresh[1], again,
+                'after the source changed, a second pass over the same view object raises', nontriv, 'exc')
+    a, f = again[1], fresh[1]
+    if fn == 'dicts':
+        a, f = _canon_dicts(a), _canon_dicts(f)
+    ra = repr(a)
+    if a == f and ra == repr(f):
+        return ('ok', None, None, None, '', nontriv, ra)
+    return ('viol', 'reused view differs from a fresh view', fresh[1], again[1],
+            'after the source changed (%s, %s, pass 1: %s) a second pass over the same view object differs from '
+            'what a freshly built view yields' % (rp['src'], ' '.join(map(str, rp['mut'])), p1), nontriv, ra)
 
 
 def _canon_dicts(x):
@@ -959,6 +1162,8 @@ def _frame(fn, tables, obs, args=()):
 
 def evaluate(case):
     """-> (status, signature, expected, observed, message, nontrivial, outcome); status in ok/viol/undefined."""
+    if case.get('repass'):
+        return evaluate_repass(case)
     fn = case['fn']
     tables = case['tables']
     args = R.materialise(tuple(case['args']))
@@ -1054,6 +1259,7 @@ def items(tier, seed):
                     for c in range(chunks):
                         out.append({'fn': fn, 'form': form, 'hdrs': hdrs, 'ns': nn, 'chunk': c, 'chunks': chunks,
                                     'size': -(-total // chunks)})
+    out.extend(repass_items(tier))
     # simplest first (violations keep the first case per group): by rows, then width; stable otherwise
     out.sort(key=lambda it: (sum(it['ns']), sum(len(h) for h in it['hdrs'])))
     # the seed rotates the order of equally simple items only
@@ -1064,11 +1270,72 @@ def items(tier, seed):
     return res
 
 
+REPASS_ROWS = 2
+REPASS_WIDE_ARGS = 200
+
+
+def repass_plan(hdrs):
+    """(table index, source kind, mutation, pass-1 kind) for a call with input headers hdrs."""
+    out = []
+    for ti, h in enumerate(hdrs):
+        for p1 in PASS1:
+            for m in mutations(h, REPASS_ROWS):
+                if p1 == 'none' and m[0] != 'none':
+                    continue            # no first pass: only the unchanged source (baseline of the differential)
+                out.append((ti, 'list', m, p1))
+            if p1 != 'none':
+                for m in view_mutations(h):
+                    out.append((ti, 'rename view', m, p1))
+    return out
+
+
+def repass_items(tier):
+    """Second axis (same space in both tiers): every call form x every header kind with <= 2 fields x EVERY argument
+    value of the form; headers with 3 fields for the call forms with <= REPASS_WIDE_ARGS argument values (state kept
+    on a view is a property of the view class, not of the argument value).  Tables: rectangular, REPASS_ROWS rows."""
+    out = []
+    for fn, forms in SPACES.items():
+        if fn in EAGER:
+            continue
+        for form, (headers, tables, args, ns) in forms.items():
+            for hdrs in headers():
+                nn = (REPASS_ROWS,) * len(hdrs)
+                ck = (tier, 'repass', _N, fn, form, hdrs)
+                if ck not in _COUNT:
+                    na = len(args(hdrs, nn))
+                    if any(len(h) > 2 for h in hdrs) and na > REPASS_WIDE_ARGS:
+                        na = 0
+                    _COUNT[ck] = na * len(repass_plan(hdrs))
+                total = _COUNT[ck]
+                if not total:
+                    continue
+                chunks = max(1, -(-total // (TARGET[tier] // 2)))
+                for c in range(chunks):
+                    out.append({'fn': fn, 'form': form, 'hdrs': hdrs, 'ns': nn, 'chunk': c, 'chunks': chunks,
+                                'size': -(-total // chunks), 'mode': 'repass'})
+    return out
+
+
+def repass_cases(item):
+    fn, form = item['fn'], item['form']
+    headers, tables, args, ns = SPACES[fn][form]
+    hdrs = item['hdrs']
+    ts = tuple(mk(h, (len(h),) * REPASS_ROWS, letter) for h, letter in zip(hdrs, 'rst'))
+    prod = itertools.product(args(hdrs, item['ns']), repass_plan(hdrs))
+    if item['chunks'] > 1:
+        prod = itertools.islice(prod, item['chunk'], None, item['chunks'])
+    for (a, kw), (ti, src, m, p1) in prod:
+        yield {'fn': fn, 'form': form, 'tables': ts, 'args': a, 'kwargs': kw,
+               'repass': {'t': ti, 'src': src, 'mut': m, 'pass1': p1}}
+
+
 def bounds(tier, seed):
     its = items(tier, seed)
     per = OrderedDict()
     for it in its:
         k = '%s/%s' % (it['fn'], it['form'])
+        if it.get('mode') == 'repass':
+            k = 'second pass after source change: ' + it['fn']
         per[k] = per.get(k, 0) + it['size']
     return {'max_rows': nmax(), 'max_fields': 3, 'functions': len(SPACES), 'call_forms': len(per),
             'field_names': list(_N), 'missing_values': [None, MISS],
@@ -1076,6 +1343,10 @@ def bounds(tier, seed):
 
 
 def cases_of(item):
+    if item.get('mode') == 'repass':
+        for c in repass_cases(item):
+            yield c
+        return
     fn, form = item['fn'], item['form']
     headers, tables, args, ns = SPACES[fn][form]
     ts = tables(item['hdrs'], item['ns'])
@@ -1094,6 +1365,9 @@ def cases_of(item):
 def run_item(item, acc):
     fn, form = item['fn'], item['form']
     key = LABEL.get((fn, form)) or '%s/%s' % (fn, form)
+    repass = item.get('mode') == 'repass'
+    if repass:
+        key = '%s (same view iterated again after the source changed)' % FAMILY.get(fn, fn)
     n_nt = 0
     n = 0
     for case in cases_of(item):
@@ -1112,7 +1386,10 @@ def run_item(item, acc):
     acc.states += n
     acc.transitions += n
     acc.nontrivial += n_nt
-    if (fn, form) in FRAME_ONLY:
+    if repass:
+        acc.counters['second-pass cases:' + fn] += n
+        acc.counters['second-pass nontrivial:' + fn] += n_nt
+    elif (fn, form) in FRAME_ONLY:
         acc.counters['frame-only cases:' + fn] += n
     else:
         acc.counters['cases:' + fn] += n
@@ -1148,6 +1425,8 @@ def vacuity(cov, tier):
             problems.append('no case for %s' % fn)
         elif not c.get('nontrivial:' + fn) and fn not in ('header', 'fieldnames'):
             problems.append('no non-trivial case for %s' % fn)
+        if fn not in EAGER and not c.get('second-pass nontrivial:' + fn):
+            problems.append('no second-pass case for %s' % fn)
     und = sum(v for k, v in c.items() if k.startswith('outside-documented-domain:'))
     if und:
         problems.append('%d generated cases fall outside the documented domain (generator defect)' % und)
